@@ -553,6 +553,10 @@ func (r *runningStep) provideEnablingInput(input map[string]any) error {
 		enabled = unserializedEnabled.(bool)
 	}
 	r.enabledInputAvailable = true
+	if r.currentState == step.RunningStepStateWaitingForInput && r.currentStage == StageIDEnabling {
+		// The input is here: whatever the step does next, it is no longer waiting for it.
+		r.currentState = step.RunningStepStateRunning
+	}
 	r.enabledInput <- enabled
 	return nil
 }
@@ -643,6 +647,13 @@ func (r *runningStep) run() {
 // - bool: True if the step was disabled due to context done.
 func (r *runningStep) enableStage() (bool, bool) {
 	// Enabling is the first stage, so do not transition out of it.
+	// While the enabled input has not arrived the step is waiting for input, not starting: a step that
+	// reports "starting" forever keeps the workflow's deadlock check from ever concluding anything.
+	r.lock.Lock()
+	if !r.enabledInputAvailable {
+		r.currentState = step.RunningStepStateWaitingForInput
+	}
+	r.lock.Unlock()
 	var enabled bool
 	select {
 	case enabled = <-r.enabledInput:
